@@ -111,7 +111,7 @@ def main():
     if not quick or True:
         missing = [l for l in ('key', 'swap', 'emptyleaf', 'next', 'sep', 'first', 'wrap', 'emptychild', 'pristine', 'tlc')
                    if not labels.get(l)]
-        if missing:
+        if missing and not ck.violations:
             common.machinery_failure('corruption classes never built: %s' % missing)
     ck.assumptions += ['corruptions are applied through __setstate__ on fresh objects; states __setstate__ refuses are not containers',
                        'sizes set on the classes (check.check() only knows exact types)']
